@@ -606,8 +606,16 @@ pub fn coordinated_fault(img: &mut Img, kind: usize, element_bytes: usize) -> &'
             }
         },
         3 => {
-            if let Some(l) = img.fri_layers.last().cloned() {
-                img.fri_layers.push(l);
+            match img.fri_layers.last().cloned() {
+                Some(l) => img.fri_layers.push(l),
+                // a proof without FRI layers (the whole polynomial fits the remainder) gets a
+                // well-formed surplus layer: a few element bytes and an empty opening
+                None => img.fri_layers.push(LayerImg {
+                    values_len: 0,
+                    values: vec![0u8; element_bytes.max(1) * 2],
+                    paths_len: 0,
+                    paths: MerkleImg { depth: 1, nvec: 0, vecs: Vec::new() },
+                }),
             }
         },
         4 => {
